@@ -41,12 +41,15 @@ def _gen_case(rng, big=False):
     entries = []
     for i in range(n):
         real = i < n_real
+        # at most one entry directory without output.pkl (writer died / unpicklable result); its age is the
+        # directory's atime, which listing the directory refreshes: it is always the most recently used entry
+        incomplete = (not real) and rng.random() < 0.25 and not any(e["incomplete"] for e in entries)
         if real:
             size = rng.choice([0, 1, 10, 100, 500, 1000, 1024, 3000])
         else:
             size = rng.choice([0, 0, 1, 7, 512, 1023, 1024, 1025, 2048])
         k = rng.randint(0, 3) if rng.random() < 0.5 else rng.randint(0, n + 1)  # ties are common
-        entries.append(dict(real=real, arg=i, size=size, k=k))
+        entries.append(dict(real=real, arg=i, size=size, k=k, incomplete=incomplete))
     return dict(entries=entries, lim=None)
 
 
@@ -127,24 +130,34 @@ def _run_case(ctx, res, case, idx, requests, pending):
         else:
             p = os.path.join(func_dir, "%032x" % (0xABC000 + e["arg"]))
             os.makedirs(p, exist_ok=True)
-            with open(os.path.join(p, "output.pkl"), "wb") as fh:
+            with open(os.path.join(p, "metadata.json" if e.get("incomplete") else "output.pkl"), "wb") as fh:
                 fh.write(b"\0" * e["size"])
             paths[e["arg"]] = p
     now = int(time.time())
     base = now - 100000
     for e in case["entries"]:
-        t = base - 1000 * e["k"]
-        os.utime(os.path.join(paths[e["arg"]], "output.pkl"), (t, t))
-    inv = mem.store_backend.get_items()
+        t = base + 50000 if e.get("incomplete") else base - 1000 * e["k"]
+        tgt = paths[e["arg"]] if e.get("incomplete") else os.path.join(paths[e["arg"]], "output.pkl")
+        os.utime(tgt, (t, t))
     by_path = {p: a for a, p in paths.items()}
-    items = []
-    for it in inv:
-        a = by_path.get(it.path)
-        if a is None:
-            raise core.InfraError(f"unknown inventory entry {it.path}")
-        items.append((a, it.size, int(it.last_access.timestamp())))
-    if len(items) != len(case["entries"]):
-        raise core.InfraError("inventory size mismatch")
+    # the inventory, read independently of the store backend: every entry directory, its files' total size, the
+    # access time of output.pkl (of the directory when there is no output.pkl)
+    own = {}
+    for a, p in paths.items():
+        files = [os.path.join(p, f) for f in os.listdir(p)]
+        out = os.path.join(p, "output.pkl")
+        own[a] = (a, sum(os.path.getsize(f) for f in files),
+                  int(os.path.getatime(out)) if os.path.exists(out) else base + 50000)
+    # order of equal access times: the order in which the backend lists the entries (stable sort); entries it does
+    # not list at all are appended (the oracle below still judges the cache by every entry that is on disk)
+    try:
+        inv = mem.store_backend.get_items()
+    except Exception as e:  # noqa: BLE001
+        inv = []
+        res.fail("get_items-raises:" + type(e).__name__, dict(entries=case["entries"]), repr(e))
+    order = [by_path[it.path] for it in inv if it.path in by_path]
+    order += [a for a in own if a not in order]
+    items = [own[a] for a in order]
     if case["lim"] is None:
         case["lim"] = _limits_for(ctx.rng(f"lim{idx}"), items)
     b, bstr, il, j = case["lim"]
